@@ -153,18 +153,35 @@ def body_records(tier, rng, recs, meta, n0):
             return RigidBody.make_cylinder(T, 0.5, 1.0, 0.6)
         return RigidBody.make_capsule(T, 0.4, 0.8, 0.6)
     kinds = ("cube", "box", "sphere", "ellipsoid", "cylinder", "capsule")
-    for sc in range(12 if tier == "quick" else 200):
+    nsc = 12 if tier == "quick" else 200
+    ndeep = 30 if tier == "quick" else 600
+    for sc in range(nsc + ndeep):
         k1, k2 = rng.choice(kinds), rng.choice(kinds)
         T1, T2 = np.eye(4), np.eye(4)
-        mode = rng.choice(("stack", "general", "far"))
-        if mode == "stack":
+        mode = rng.choice(("stack", "general", "far")) if sc < nsc else "deepstack"
+        if mode == "deepstack":
+            # lattice-aligned boxes of random (also flat) sizes pressed deep into each other along one axis, past the medial
+            # surfaces: interior tetrahedra with a face of constant non-zero potential parallel to the contact plane take part
+            # (seed C15-7: such a face dropped from the half-planes while the plane test lets the pair through)
+            szs = [np.array([rng.choice((0.4, 1.0, 2.0, 3.0)) for _ in range(3)]) for _ in range(2)]
+            T1[:3, :3] = np.array(rng.choice(S.CUBE)[0], dtype=float); T2[:3, :3] = np.array(rng.choice(S.CUBE)[0], dtype=float)
+            ext1 = np.abs(T1[:3, :3]) @ szs[0]; ext2 = np.abs(T2[:3, :3]) @ szs[1]
+            ax = rng.randrange(3)
+            off = np.array([rng.choice((0.0, 0.25, -0.25, 0.5)) for _ in range(3)])
+            off[ax] = rng.choice((-1, 1)) * rng.uniform(0.05, 0.95) * 0.5 * (ext1[ax] + ext2[ax])
+            T2[:3, 3] = off
+            k1 = k2 = "box"
+        elif mode == "stack":
             T2[:3, 3] = [rng.choice((0.0, 0.25)), rng.choice((0.0, 0.25)), rng.choice((0.6, 0.8, 0.9))]
         elif mode == "general":
             T1[:3, :3] = S.random_rotation(rng); T2[:3, :3] = S.random_rotation(rng)
             T2[:3, 3] = np.array([rng.gauss(0, 1) for _ in range(3)]) * 0.4 + T1[:3, 3]
         else:
             T2[:3, 3] = [5.0, rng.uniform(-1, 1), rng.uniform(-1, 1)]
-        b1, b2 = mk(k1, T1), mk(k2, T2)
+        if mode == "deepstack":
+            b1, b2 = RigidBody.make_box(T1, szs[0]), RigidBody.make_box(T2, szs[1])
+        else:
+            b1, b2 = mk(k1, T1), mk(k2, T2)
         b1.youngs_modulus, b2.youngs_modulus = 10 ** rng.uniform(-2, 2), 10 ** rng.uniform(-2, 2)
         n += 1
         rid = f"q{n}"
